@@ -1,7 +1,7 @@
 #!/bin/sh
 # tools/run_all.sh [quick|thorough] [ids...] : runs the registered checks sequentially against /repo, prints one line each
 T=${1:-quick}; shift 2>/dev/null
-cd /verif
+cd "$(dirname "$0")/.." || exit 9
 IDS=${@:-$(python3 -c "import json;print(' '.join(c['property_id'] for c in json.load(open('MANIFEST.json'))['checks']))")}
 for p in $IDS; do
   s=$(date +%s); ./check $p --tier $T > /tmp/runall_$p.log 2>&1; rc=$?; e=$(date +%s)
